@@ -276,8 +276,6 @@ def range_checked(w, sel, edges, evs, ci_):
             return True
         if e.kind == 'cond' and not e.d.get('synthetic') and e.d.get('node') is not None:
             t = ast.unparse(e.d['node']).replace(' ', '')
-            if f'>=len(self.{edges})' in t and e.polarity is False:
-                return True
             # a rejection test in any spelling (the whole if-test is looked up: the explorer splits and/or into single comparisons)
             whole = enclosing_test(w, e)
             if whole is not None and f'len(self.{edges})' in ast.unparse(whole).replace(' ', '') and range_guard_ok(whole, edges, accept=False):
@@ -328,17 +326,41 @@ def check_wiring(p, w, r):
     if fi is None:
         return
     r.analysed_functions.add(fi.key)
-    for attr, tag, edges in (('out_edge_selection', 'OUT', 'out_edges'), ('in_edge_selection', 'IN', 'in_edges')):
-        assigns = [n for n in walk_no_nested(fi.node) if isinstance(n, ast.Assign) and any(self_attr(t) == attr for t in n.targets)
-                   and isinstance(n.value, ast.Call) and ast.unparse(n.value.func).endswith('get_edge_selector')]
-        if not assigns:
+    # reset and the private helpers it runs (the validation chain may live in a helper)
+    scope, seen, work = [], set(), [fi]
+    while work:
+        f = work.pop()
+        if f.key in seen:
             continue
+        seen.add(f.key)
+        scope.append(f.node)
+        for n in walk_no_nested(f.node):
+            if isinstance(n, ast.Call) and isinstance(n.func, ast.Attribute) and isinstance(n.func.value, ast.Name) and n.func.value.id == 'self' \
+                    and n.func.attr.startswith('_') and n.func.attr in w.methods:
+                work.append(w.methods[n.func.attr])
+
+    def scope_nodes():
+        for fn in scope:
+            yield from walk_no_nested(fn)
+    for attr, tag, edges in (('out_edge_selection', 'OUT', 'out_edges'), ('in_edge_selection', 'IN', 'in_edges')):
+        assigns = [n for n in scope_nodes() if isinstance(n, ast.Assign) and any(self_attr(t) == attr for t in n.targets)
+                   and isinstance(n.value, ast.Call) and ast.unparse(n.value.func).endswith('get_edge_selector')]
         key = f'{fi.key}::{attr}-wiring'
+        if not assigns:
+            # does the node accept policy names for this side at all?  (a constructor parameter / attribute of that name, and the selector reads it)
+            if p.has_member(w.ci.key, attr) and (w.methods.get('_get_out_edge_index' if tag == 'OUT' else '_get_in_edge_index') is not None) \
+                    and any(isinstance(n, ast.Call) and ast.unparse(n.func).endswith('get_edge_selector') for m in w.methods.values() for n in walk_no_nested(m.node)):
+                # the class resolves names on the other side but not on this one
+                r.fail('C15.R7', key, f'policy names ("ROUND_ROBIN", "RANDOM") of {attr} are never resolved to a selector: the selection helper rejects the string '
+                                      f'at the first item', src(fi.module), fi.node.lineno)
+            elif w.ci.name in ('Source', 'Machine', 'Splitter', 'Combiner') and tag == 'OUT' or (w.ci.name in ('Machine', 'Splitter') and tag == 'IN'):
+                r.fail('C15.R7', key, f'policy names of {attr} are never resolved to a selector (no get_edge_selector call in reset)', src(fi.module), fi.node.lineno)
+            continue
         c = assigns[0].value
         args = [ast.unparse(a) for a in c.args]
         ok = len(args) >= 4 and args[0] == f'self.{attr}' and args[1] == 'self' and args[3].strip('\'"') == tag
         # constant index validated against the same edge list
-        asserts = [n for n in walk_no_nested(fi.node) if isinstance(n, ast.Assert) and f'self.{attr}' in ast.unparse(n.test)]
+        asserts = [n for n in scope_nodes() if isinstance(n, ast.Assert) and f'self.{attr}' in ast.unparse(n.test)]
         ok2 = any(is_range_test(a.test, edges) for a in asserts)
         if ok and ok2:
             r.ok('C15.R7', key, f'get_edge_selector(self.{attr}, self, env, "{tag}"); constant index asserted within len(self.{edges})', src(fi.module), fi.node.lineno)
